@@ -12,7 +12,7 @@ CLAIMED = {
  "C19": dict(level="fault_enumeration", ref="DESIGN.md §2 C19",
     technique="deterministic simulation with enumerated link faults: every truncation offset and generated trailers per seeded message, checked against a reference state machine",
     text="For each seeded clear-signed message the link is cut after every character offset (enumerated), delivered without final newline and continued with generated trailers; each received text goes to strip_pgp_signature and is compared with a reference state machine, plus the direct safety clause that a payload presented as signed is the full payload.",
-    note="Trusted: the 40-line reference state machine written from the property text; bare CR excluded from the line alphabet (domain decision)."),
+    note="Trusted: the 40-line reference state machine written from the property text; a CR inside a line is excluded from the line alphabet (domain decision); payload lines ending in CR are included and end on the known finding."),
 
  "C02": dict(level="fault_enumeration", ref="DESIGN.md §2 C02",
     technique="deterministic simulation with storage/transport fault injection (truncation enumerated in the thorough tier) over all 64 parsing entry points; counting allocator + supervisor for panic/abort/hang/budget",
